@@ -425,7 +425,7 @@ func init() {
 		Rules: []string{"C12-R1", "C12-R2", "C12-R3", "C12-R4", "C12-R5", "C12-R6", "C10-R3", "C06-R1", "C12-R7", "C12-R8"},
 		Explain: "Decides the absence of state that could leak from one day into the next: C12-R1 every Reporter implementation is streaming (Process writes to its sink and to nothing persistent; Flush adds no content) or accumulating (Process updates its own state and writes nothing), never both, and no Process writes a package-level variable or the shared recipe book; " +
 			"C12-R2 the per-record callback that feeds reporters writes every captured variable before reading it within one invocation; " +
-			"C12-R3 no pointer to a variable that outlives one record is stored into a record by the parser; C12-R4 every heading yields exactly one delivered record whatever follows it; " +
+			"C12-R3 no pointer to a variable that outlives one record is stored into a record by the parser, nor a reference that a local carries round the scan loop and that the loop only ever makes when it is still nil; C12-R4 every heading yields exactly one delivered record whatever follows it; " +
 			"C12-R5 a reporter's sink is the configured output, a bufio.Writer or a csv.Writer over it — not a writer that holds rows back and re-lays them out when flushed (text/tabwriter), which would make earlier days' rows depend on later days; " +
 			"C12-R6 a decision on the size of an accumulator is an emptiness test (a part that contributed one element is not treated as empty); C12-R7 in Process an entry of a numeric map of the reporter, or a scalar total, is only ever updated to its old value plus the day's contribution (never overwritten); " +
 			"C10-R3 (shared) no per-record callback stops the walk without an error, so a day in the middle cannot make the later days vanish. C12-R7 a per-day function that reads its accumulator back makes it anew in that call. C12-R1 also: Process keeps nothing taken from the day's record (its date, a name) in the reporter for the next call. C12-R8 the day record a per-record callback hands to Process is made in that call, or every field of a reused record is assigned on every path before the call (and a reused list is emptied first).",
